@@ -38,6 +38,7 @@
      layouts (ComposeFacts.ex_layouts), so C12_writer_layouts is stated per class;
    - the order of the summary groups, Info and the index-based readers: tied by the harness (the
      order-dependent summary pass of the indexed reader was a defect and has been fixed in /repo). *)
+From Mcap Require ConstsTie LayoutTie DecisionTieR. (* regenerated ties to /repo's source that this property's model relies on *)
 From Coq Require Import List NArith ZArith Bool.
 From Coq.Strings Require Import Byte.
 From Mcap Require Import Bytes GoSem Crc32 Records RecordsFacts Writer WriterFactsB Lexer LexSpec LexerFactsB
